@@ -339,10 +339,10 @@ PROPS = {
         "rule": "seeded (formula, variable, term) triples: the variable mostly occurs in the formula, terms sort-compatible (1/12 deliberately not: expected panic), "
                 "small name pools so that binders reuse the substituted name / name variables of the term / several per block + corpus/substitute.txt; "
                 "Formula::substitute vs Lean `Formula.subst` (+ panic predicate), exact tree equality",
-        "level_text": "Full except one corner: substitute_correct / substitute_correct_classical prove the substitution lemma for every formula whose quantifier blocks bind no variable twice (NodupBinders), "
-                      "every variable and sort-compatible term, every interpretation, world and assignment, INCLUDING the renaming of captured binders with the names the real fresh-name search picks "
-                      "(fresh_binder_not_taken by pigeonhole); substitute_fv bounds the free variables; the corner `exists X X ...` (same variable twice in one block) is covered by correspondence only. "
-                      "Two genuine defects were repaired (fix: b9b9933).",
+        "level_text": "Full: substitute_correct proves, for EVERY formula (incl. binders reusing the substituted name, binders naming variables of the term, several per block, repeated binders, "
+                      "taken fresh-name candidates), every variable, every sort-compatible term, every HT interpretation, world and assignment, that F[x:=t] has the truth value of F with x assigned the value of t "
+                      "(classical corollary substitute_correct_classical); substitute_fv bounds the free variables; substitute_bound / substitute_other_sort cover the third sentence; the fresh names are those of the real "
+                      "search (fresh_binder_not_taken, pigeonhole). The model is the fixed implementation (fix: b9b9933) and is tied to it by exact correspondence.",
         "level_note": PROOF_NOTE,
         "technique": "Lean 4 proof (substitution lemma by induction on fuel/depth, binder lists characterised by sets) + differential correspondence",
         "design_ref": "DESIGN.md 6/C17",
